@@ -1,50 +1,143 @@
 (* C17 — entity declarations expand to a complete, mutually consistent API.
    Only statements, closed by [exact lemma], with Print Assumptions beneath.
-   Model: model/Entity.v (entityNode.run after fix d657973).  [expand e] is what the
-   walker emits (Err for an unknown default status filter / duplicate summary name),
-   [compile e] adds the reference resolution of j5convert. *)
+   Model: model/Entity.v (entityNode.run after fix d657973).  [expand e] is what the walker
+   emits (Err for an unknown default status filter / duplicate summary name), [convert e] adds
+   the reference resolution and field checks of j5convert, [compile e] adds the parser's
+   "status is required" and the link step (symbol conflicts per scope).
+   The property itself is stated against proofs/EntitySpec.v: a declarative specification
+   written from the property text / README over ANY component list (lookups by name, no builder
+   of the model), with the quantifier as the predicate [in_quantifier].
+   Part A: the property (full statement, its refutations, what holds).
+   Part B: theorems about the expansion (closedness, paths, naming, client grouping).
+   Part C: sanity lemmas (`Example`): read-backs of the model's own builders, kept because the
+           correspondence check compares exactly these shapes with the real descriptors. *)
 From Coq Require Import String List NArith Bool Permutation.
 From J5V.lib Require Import Outcome Strcase.
 From J5V.model Require Import Entity EntityClient.
 From J5V.gen Require EntityGen.
-From J5V.proofs Require Import StrcaseProofs EntityProofs EntityGenProofs EntityReadmeProofs EntityClientProofs.
+From J5V.proofs Require Import StrcaseProofs EntityProofs EntityGenProofs EntityReadmeProofs EntityClientProofs
+  EntitySpec EntitySpecProofs EntityAcceptProofs.
 Import ListNotations.
 Local Open Scope N_scope.
 
-(* the property at full strength, for every declaration the walker accepts *)
-Definition C17_full_statement : Prop :=
-  forall e cs, expand e = Ok cs ->
-    (* exactly the documented components, in order, named from the entity name *)
-    map skel cs = spec_skeleton e
-    (* every internal reference resolves inside the expansion or the implicit imports *)
-    (* (the user's own object references must name something: user_refs_ok) *)
-    /\ (user_refs_ok e (defined cs) = true ->
-        closed cs = true
-        /\ (fields_ok e = true -> query_params_ok e = true -> command_params_ok e = true -> compile e = Ok cs))
-    (* the same entity annotation on every part that carries one *)
-    /\ Forall (eq (snake_name e)) (psm_entities cs)
-    /\ Forall (eq (snake_name e)) (service_entities cs)
-    /\ Forall (eq (full_name e)) (topic_entities cs)
-    (* the schemas file holds Keys, Data, State, EventType, Event with the documented shapes *)
-    /\ (exists fl, msgs_of_file 0 cs =
-          [keys_msg e; data_msg e; state_msg e fl; event_type_msg e; event_msg e] ++ map schema_msg (e_schemas e)).
+(* ======================= Part A: the property ============================================ *)
 
-Theorem C17_full : C17_full_statement.
-Proof.
-  intros e cs H. destruct (expand_ok_inv e cs H) as [fl [_ [_ ->]]].
-  destruct (same_annotation e fl) as [A1 [A2 A3]].
-  repeat split; try assumption.
-  - apply expand_skeleton.
-  - now apply expand_closed.
-  - intros Hok Hq Hc. pose proof (compile_errors e _ H) as E. rewrite H0, Hok, Hq, Hc in E. exact E.
-  - exists fl. apply main_file_messages.
-Qed.
-Print Assumptions C17_full.
+(* the property at full strength: every declaration in the quantifier compiles, and what it
+   compiles to satisfies every clause of the specification (EntitySpec.C17_spec: the schemas
+   and their shapes, the event oneof bijection, required primary keys, the query service with
+   the path parameters of Get and Events, command services, topics, one entity annotation,
+   closed and linkable, State / Event are objects) *)
+Definition C17_full_statement : Prop :=
+  forall e, in_quantifier e = true -> exists cs, compile e = Ok cs /\ C17_spec e cs.
+
+(* REFUTED (the faithful model and the real compiler agree on each witness; KNOWN_FINDINGS.txt):
+   a primary key named page or query is inside the quantifier and its expansion does not link *)
+Theorem C17_full_refuted : ~ C17_full_statement.
+Proof. exact full_refuted. Qed.
+Print Assumptions C17_full_refuted.
+
+Theorem C17_reserved_key_refuted :
+  in_quantifier (mk_min "page") = true /\ compile (mk_min "page") = Err "symbol already defined"
+  /\ in_quantifier (mk_min "query") = true /\ compile (mk_min "query") = Err "symbol already defined".
+Proof. exact reserved_key_refuted. Qed.
+Print Assumptions C17_reserved_key_refuted.
+
+(* a summary field named upsert; an event named Type (its option "type" next to the proto oneof "type") *)
+Theorem C17_summary_upsert_refuted :
+  in_quantifier upsert_sample = true /\ compile upsert_sample = Err "symbol already defined".
+Proof. exact summary_upsert_refuted. Qed.
+Print Assumptions C17_summary_upsert_refuted.
+
+Theorem C17_event_type_refuted :
+  in_quantifier type_event_sample = true /\ compile type_event_sample = Err "symbol already defined".
+Proof. exact event_type_refuted. Qed.
+Print Assumptions C17_event_type_refuted.
+
+(* a key named status (metadata, data) compiles and State then has two JSON properties of that
+   name; a key named event (metadata) does the same to Event *)
+Theorem C17_state_property_clash_refuted :
+  exists cs m, in_quantifier (mk_min "status") = true /\ compile (mk_min "status") = Ok cs
+    /\ has_msg cs 0 m /\ m_name m = sp_name (mk_min "status") "State"
+    /\ json_props cs m = [bs "metadata"; bs "status"; bs "data"; bs "status"]
+    /\ ~ NoDup (json_props cs m).
+Proof. exact state_property_clash_refuted. Qed.
+Print Assumptions C17_state_property_clash_refuted.
+
+Theorem C17_event_property_clash_refuted :
+  exists cs m, in_quantifier (mk_min "event") = true /\ compile (mk_min "event") = Ok cs
+    /\ has_msg cs 0 m /\ m_name m = sp_name (mk_min "event") "Event"
+    /\ json_props cs m = [bs "metadata"; bs "event"; bs "event"].
+Proof. exact event_property_clash_refuted. Qed.
+Print Assumptions C17_event_property_clash_refuted.
+
+(* an optional array (or map) compiles to a repeated field inside a oneof: the compiler links it,
+   protodesc.NewFiles - the first step of deriving the client API - rejects the package *)
+Theorem C17_optional_repeated_refuted :
+  exists cs, in_quantifier optional_array_sample = true /\ reserved_free optional_array_sample = true
+    /\ compile optional_array_sample = Ok cs /\ client_accepts cs = false.
+Proof. exact optional_repeated_refuted. Qed.
+Print Assumptions C17_optional_repeated_refuted.
+
+(* an entity named Page (or Events, with eventsInGet): the entity's own property in the List (Get)
+   response has the name of the page (events) property next to it *)
+Theorem C17_entity_named_page_refuted :
+  in_quantifier page_entity = true /\ compile page_entity = Err "symbol already defined".
+Proof. exact entity_named_page_refuted. Qed.
+Print Assumptions C17_entity_named_page_refuted.
+
+Theorem C17_status_case_refuted :
+  exists cs, in_quantifier status_case_sample = true /\ reserved_free status_case_sample = true
+    /\ compile status_case_sample = Ok cs /\ client_accepts cs = false.
+Proof. exact status_case_refuted. Qed.
+Print Assumptions C17_status_case_refuted.
+
+(* PARTIAL (1): THE FULL STATEMENT HOLDS FOR EVERY DECLARATION WITHOUT RESERVED NAMES.
+   [reserved_free e]: no primary/shard key named page or query, no key named metadata / data /
+   status / event, no summary field named upsert, no event or oneof option named type, the entity
+   not named page (nor events when eventsInGet is set) - exactly the names the expansion itself
+   puts next to the user's.  Such a declaration in the quantifier is ACCEPTED (parser validation,
+   walker, conversion, link step) and its output satisfies every clause of the specification. *)
+Theorem C17_full_modulo_reserved : forall e, in_quantifier e = true -> reserved_free e = true ->
+  exists cs, compile e = Ok cs /\ C17_spec e cs.
+Proof. exact full_modulo_reserved. Qed.
+Print Assumptions C17_full_modulo_reserved.
+
+Theorem C17_acceptance : forall e, in_quantifier e = true -> reserved_free e = true -> exists cs, compile e = Ok cs.
+Proof. exact acceptance. Qed.
+Print Assumptions C17_acceptance.
+
+(* PARTIAL (2): for EVERY declaration the model compiles (in the quantifier or not, reserved
+   names or not) the output satisfies the core specification; for declarations in the
+   quantifier the path parameters of Get and Events are exactly the primary and shard keys in
+   declaration order and Events = Get + "/events" (no clean-path hypothesis: path.Join's
+   cleaning is part of the proof); State / Event are objects when no key uses one of their
+   property names. *)
+Theorem C17_full_partial : forall e cs, compile e = Ok cs ->
+  C17_spec_core e cs
+  /\ (in_quantifier e = true -> spec_query_paths e cs)
+  /\ (in_quantifier e = true -> reserved_free e = true -> spec_objects e cs).
+Proof. exact full_partial. Qed.
+Print Assumptions C17_full_partial.
+
+(* what acceptance by [compile] means: at least one status (the parser's validation), the
+   conversion succeeded (references resolve, no optional+required field, path parameters are
+   request fields), the walker accepted (default filters are statuses, summary names distinct),
+   and no symbol is defined twice in any scope of the three files *)
+Theorem C17_compile_accepts : forall e cs, compile e = Ok cs ->
+  e_status e <> [] /\ convert e = Ok cs /\ link_ok cs = true
+  /\ exists fl, default_filters e (requested_filters e) = Some fl /\ cs = expand_with e fl /\ closed cs = true.
+Proof. exact compile_inv. Qed.
+Print Assumptions C17_compile_accepts.
+
+(* ======================= Parts B and C: the expansion ====================================== *)
+(* Statements introduced by `Example` are SANITY LEMMAS (Part C): they read the model's own
+   builders back (proof by unfolding) and say nothing the definition does not; the clauses of
+   the property are Part A.  `Theorem`s below are substantive (Part B). *)
 
 (* 1. the exact component list: Keys, Data, Status, State, EventType, Event schemas; the
       query service with Get/List/Events and their request/response messages; every
       declared command service; the publish topic; one upsert topic per summary *)
-Theorem C17_components : forall e fl, map skel (expand_with e fl) = spec_skeleton e.
+Example C17_components : forall e fl, map skel (expand_with e fl) = spec_skeleton e.
 Proof. exact expand_skeleton. Qed.
 Print Assumptions C17_components.
 
@@ -69,14 +162,15 @@ Print Assumptions C17_closed_scalars.
 
 (* fields_ok: no user-declared field is both optional and required/primary (buildProperty);
    *_params_ok: every ":name" part of a method path is a request field (visitServiceMethodNode) *)
-Theorem C17_compile_is_expand : forall e,
+Example C17_compile_is_expand : forall e,
+  list_settings e = false ->
   (forall fl, user_refs_ok e (defined (expand_with e fl)) = true) ->
-  fields_ok e = true -> query_params_ok e = true -> command_params_ok e = true -> compile e = expand e.
+  fields_ok e = true -> query_params_ok e = true -> command_params_ok e = true -> convert e = expand e.
 Proof. exact compile_expand. Qed.
 Print Assumptions C17_compile_is_expand.
 
-Theorem C17_compile_errors : forall e cs, expand e = Ok cs ->
-  compile e = if user_refs_ok e (defined cs) then
+Example C17_compile_errors : forall e cs, expand e = Ok cs -> list_settings e = false ->
+  convert e = if user_refs_ok e (defined cs) then
                 if fields_ok e then
                   if query_params_ok e && command_params_ok e then Ok cs
                   else Err "missing field in request"
@@ -95,13 +189,22 @@ Theorem C17_query_params_ok : forall e,
 Proof. exact query_params_always_ok. Qed.
 Print Assumptions C17_query_params_ok.
 
-Theorem C17_expand_total : forall e, is_panic (expand e) = false /\ expand e <> OutOfFuel.
+Example C17_expand_total : forall e, is_panic (expand e) = false /\ expand e <> OutOfFuel.
 Proof. exact expand_total. Qed.
 Print Assumptions C17_expand_total.
 
+(* Go panics are not hidden by the model: the conversion panics exactly when the walker accepted a
+   declaration whose query block carries listRequest / eventsListRequest settings (SetExtension of a
+   MessageOptions extension on MethodOptions in visitServiceMethodNode; cmpb's known C07 finding;
+   outside C17's quantifier: [in_quantifier] requires list_settings e = false) *)
+Theorem C17_convert_panics : forall e,
+  is_panic (convert e) = true <-> (exists cs, expand e = Ok cs) /\ list_settings e = true.
+Proof. exact convert_panics. Qed.
+Print Assumptions C17_convert_panics.
+
 (* 3. the same annotation everywhere: psm options and service options carry
       ToSnake(name), topics carry <package>.ToCamel(name) *)
-Theorem C17_same_annotation : forall e fl,
+Example C17_same_annotation : forall e fl,
   Forall (eq (snake_name e)) (psm_entities (expand_with e fl))
   /\ Forall (eq (snake_name e)) (service_entities (expand_with e fl))
   /\ Forall (eq (full_name e)) (topic_entities (expand_with e fl)).
@@ -109,14 +212,14 @@ Proof. exact same_annotation. Qed.
 Print Assumptions C17_same_annotation.
 
 (* 4. State and Event: metadata + flattened keys + data/status, or + the event oneof *)
-Theorem C17_main_file : forall e fl,
+Example C17_main_file : forall e fl,
   msgs_of_file 0 (expand_with e fl) =
     [keys_msg e; data_msg e; state_msg e fl; event_type_msg e; event_msg e]
-    ++ map schema_msg (e_schemas e).
+    ++ flat_map schema_msgs (e_schemas e).
 Proof. exact main_file_messages. Qed.
 Print Assumptions C17_main_file.
 
-Theorem C17_state_event_shapes : forall e fl,
+Example C17_state_event_shapes : forall e fl,
   map shape (m_fields (state_msg e fl)) =
     [ (bs "metadata", TObject (bs "j5.state.v1") (bs "StateMetadata"), true, false);
       (bs "keys", TObject [] (m_name (keys_msg e)), true, true);
@@ -133,7 +236,7 @@ Print Assumptions C17_state_event_shapes.
 
 (* 5. the event oneof has exactly one option per declared event, in order, each pointing
       at the nested message of that event's name *)
-Theorem C17_event_oneof : forall e,
+Example C17_event_oneof : forall e,
   let m := event_type_msg e in
   m_oneof m = true
   /\ map fst (m_nested m) = map ev_name (e_events e)
@@ -145,26 +248,26 @@ Print Assumptions C17_event_oneof.
 
 (* 6. primary keys: required, in declaration order, and in that order among the path
       parameters of Get and Events (which are the primary and the shard keys) *)
-Theorem C17_keys_declaration_order : forall e,
+Example C17_keys_declaration_order : forall e,
   map f_json (m_fields (keys_msg e)) = map (fun k => uf_name (k_def k)) (e_keys e).
 Proof. exact keys_in_declaration_order. Qed.
 Print Assumptions C17_keys_declaration_order.
 
-Theorem C17_primary_keys_required : forall e f,
+Example C17_primary_keys_required : forall e f,
   In f (m_fields (keys_msg e)) -> f_primary f = true -> f_required f = true.
 Proof. exact primary_keys_required. Qed.
 Print Assumptions C17_primary_keys_required.
 
-Theorem C17_path_keys_primary : forall e, filter is_primary (get_keys e) = primary_keys e.
+Example C17_path_keys_primary : forall e, filter is_primary (get_keys e) = primary_keys e.
 Proof. exact get_keys_primary. Qed.
 Print Assumptions C17_path_keys_primary.
 
-Theorem C17_path_keys_no_shard : forall e,
+Example C17_path_keys_no_shard : forall e,
   (forall k, In k (e_keys e) -> k_shard k = false) -> get_keys e = primary_keys e.
 Proof. exact get_keys_no_shard. Qed.
 Print Assumptions C17_path_keys_no_shard.
 
-Theorem C17_query_service : forall e,
+Example C17_query_service : forall e,
   exists s, In (CSvc 1 s) (query_components e)
     /\ sv_name s = query_prefix e ++ bs "QueryService" /\ sv_ann s = SQuery (snake_name e)
     /\ map mt_name (sv_methods s) = [query_prefix e ++ bs "Get"; query_prefix e ++ bs "List"; query_prefix e ++ bs "Events"]
@@ -202,6 +305,17 @@ Print Assumptions C17_default_paths.
 
 (* component names are proto identifiers: ToCamel yields letters and digits only and, for an
    identifier starting with a letter, starts with a capital *)
+(* the same for every declaration in the quantifier without a baseUrlPath override: the clean-path
+   fact, the ':'-free package and the identifier keys are DERIVED from the quantifier, and the base is
+   spelled out: /<package with '/' for '.'>/<ToSnake(name)>/q *)
+Theorem C17_default_paths_quantified : forall e, e_base_url e = [] -> in_quantifier e = true ->
+  nth 0 (query_paths e) [] = query_base e ++ flat_map (fun u => 47 :: brace u) (get_keys e)
+  /\ nth 2 (query_paths e) [] =
+       query_base e ++ flat_map (fun u => 47 :: brace u) (get_keys e) ++ bs "/events"
+  /\ query_base e = [47] ++ map (fun c => if c =? 46 then 47 else c) (e_pkg e) ++ [47] ++ to_snake (e_name e) ++ bs "/q".
+Proof. exact default_paths_quantified. Qed.
+Print Assumptions C17_default_paths_quantified.
+
 Theorem C17_component_names_alnum : forall e suffix,
   forallb alnum (component_name e suffix) = true.
 Proof. exact component_names_alnum. Qed.
@@ -254,14 +368,14 @@ Print Assumptions C17_status_numbering.
 (* default status filters always name values of the status enum (after fix 705ef70) *)
 Theorem C17_default_filters_are_statuses : forall e fl f,
   default_filters e (requested_filters e) = Some fl -> In f fl ->
-  In f (map fst (status_values (status_prefix e) (e_status e))).
+  In f (map fst (entity_status_values e)).
 Proof. exact default_filters_are_enum_values. Qed.
 Print Assumptions C17_default_filters_are_statuses.
 
 (* the second observable: what the real j5client derives (one StateEntity) agrees with
    the descriptors: same entity name, State schema, primary keys in declaration order,
    one event per declared event, the command services, the query service and its paths *)
-Theorem C17_client_view : forall e fl,
+Example C17_client_view : forall e fl,
   let c := client_view e in
   ce_name c = snake_name e
   /\ ce_schema c = e_pkg e ++ [46] ++ m_name (state_msg e fl)
@@ -286,6 +400,16 @@ Theorem C17_client_groups_any_order : forall e fl objs,
 Proof. exact client_groups_any_order. Qed.
 Print Assumptions C17_client_groups_any_order.
 
+(* several entities in one package (distinct entity names, no clash between message names):
+   the client shows one state entity per declaration, each the declared one, in order *)
+Theorem C17_client_groups_file : forall pkg (l : list (entity * list bytes)),
+  (forall p, In p l -> e_pkg (fst p) = pkg) ->
+  NoDup (map (fun p => snake_name (fst p)) l) ->
+  NoDup (map m_name (main_messages (file_components l))) ->
+  client_of pkg (file_components l) = Some (map (fun p => grouping_view (fst p)) l).
+Proof. exact client_groups_file. Qed.
+Print Assumptions C17_client_groups_file.
+
 (* the defect repaired by fix 2072988: with the pre-fix inference of findPSMOptions an object
    embedding the keys is a second KEYS candidate; for one visiting order the reported primary
    key is the declared one, for another it is empty *)
@@ -301,12 +425,12 @@ Print Assumptions C17_legacy_inference_refuted.
 
 (* several entity declarations in one file: the result is the concatenation of the single
    expansions (so every theorem above applies to each part) and is closed as a whole *)
-Theorem C17_file_is_concat : forall es cs, compile_all es = Ok cs ->
-  exists l, Forall2 (fun e c => compile e = Ok c) es l /\ cs = concat l.
+Theorem C17_file_is_concat : forall es cs, convert_all es = Ok cs ->
+  exists l, Forall2 (fun e c => convert e = Ok c) es l /\ cs = concat l.
 Proof. exact compile_all_inv. Qed.
 Print Assumptions C17_file_is_concat.
 
-Theorem C17_file_closed : forall es cs, compile_all es = Ok cs -> closed cs = true.
+Theorem C17_file_closed : forall es cs, convert_all es = Ok cs -> closed cs = true.
 Proof. exact compile_all_closed. Qed.
 Print Assumptions C17_file_closed.
 
@@ -323,9 +447,12 @@ Print Assumptions C17_names_upper_camel.
 (* the tie: entity.go still defines State/EventType/Event through componentName and
    applies no strcase function to a concatenation; Strcase.v models the pinned version *)
 Theorem C17_code_tables :
-  model_run_order = EntityGen.run_order /\ model_suffix_sites = EntityGen.suffix_sites
-  /\ EntityGen.camel_of_concat_sites = 0 /\ model_strcase_calls = EntityGen.strcase_calls
-  /\ model_formats = EntityGen.sprintf_formats /\ model_property_names = EntityGen.property_names
+  model_run_order = EntityGen.run_order
+  /\ same_pairs model_suffix_sites EntityGen.suffix_sites = true
+  /\ EntityGen.camel_of_concat_sites = 0
+  /\ same_pairs model_strcase_calls EntityGen.strcase_calls = true
+  /\ same_pairs model_formats EntityGen.sprintf_formats = true
+  /\ same_pairs model_property_names EntityGen.property_names = true
   /\ EntityGen.entity_name_function = "ToSnake"%string
   /\ EntityGen.strcase_version = "v0.3.0"%string /\ EntityGen.configure_acronym_occurrences = 0.
 Proof.
@@ -334,6 +461,31 @@ Proof.
         (conj entity_name_is_snake (conj strcase_version_agrees no_acronyms_configured)))))))).
 Qed.
 Print Assumptions C17_code_tables.
+
+(* the same tie, DERIVED FROM THE MODEL FUNCTION (not from tables typed into a proofs file):
+   [expand_with] on a probe declaration yields, in the order of entityNode.run, the landmark each
+   accept function defines (by its componentName literal / Sprintf format); the literal property
+   names of State / Event / the publish message / the query messages are those the accept functions
+   write; method names and base paths are the code's Sprintf formats applied; the psm parts are the
+   EntityPart constants; the implicit imports and the external references are the code's *)
+Theorem C17_code_tables_from_model :
+  landmark_names = expected_landmarks
+  /\ same_names (msg_named "FooState") (lits_of "acceptState") = true
+  /\ same_names (msg_named "FooEvent") (lits_of "acceptEvent") = true
+  /\ same_names (msg_named "FooEventMessage") (lits_of "acceptPublishTopic") = true
+  /\ svc_methods "FooQueryService" =
+       map (fun f => sprintf1 (list_ascii_of_string f) (bs "Foo")) ["%sGet"; "%sList"; "%sEvents"]%string
+  /\ (forallb (pair_in gen_implicit) implicit_imports = true /\ forallb (pair_in implicit_imports) gen_implicit = true)
+  /\ (forallb (pair_in gen_externals) (externals (expand_with sample [])) = true
+      /\ forallb (pair_in (externals (expand_with sample []))) gen_externals = true)
+  /\ (forallb (fun p => existsb (fun q => bytes_eqb (fst p) (fst q) && (snd p =? snd q)) gen_parts) model_parts = true
+      /\ forallb (fun p => existsb (fun q => bytes_eqb (fst p) (fst q) && (snd p =? snd q)) model_parts) gen_parts = true).
+Proof.
+  destruct property_names_from_model as [P1 [P2 [P3 _]]]. destruct formats_from_model as [_ [F2 _]].
+  exact (conj run_order_from_model (conj P1 (conj P2 (conj P3 (conj F2 (conj implicit_imports_agree
+        (conj model_externals_agree entity_parts_from_model))))))).
+Qed.
+Print Assumptions C17_code_tables_from_model.
 
 (* the README's documented example (re-read from README.md on every run): the declaration it
    prints expands, in the model, to every message, field, status value, rpc and path it shows *)
@@ -371,20 +523,25 @@ Definition C17_sample : entity :=
       [mkC None None [mkM (bs "DoIt") 2 (bs ":fooId/doit") [mkU (bs "fooId") (KKey false None None) false false] (Some []);
                       mkM (bs "Download") 1 (bs "dl") [] None]]
       [mkS [] [mkU (bs "name") (KScalar 9 (bs "string")) false false]]
-      (Some (mkQ true [bs "ACTIVE"]))
-      [(bs "Address", [mkU (bs "street") (KScalar 9 (bs "string")) false false])].
+      (Some (mkQ true [bs "ACTIVE"] false))
+      [SObject (bs "Address") [mkU (bs "street") (KScalar 9 (bs "string")) false false];
+       SEnum (bs "Kind") [bs "A"; bs "B"];
+       SOneof (bs "Choice") [mkU (bs "a") (KScalar 9 (bs "string")) false false]].
 
 Example C17_example :
-  (exists cs, compile C17_sample = Ok cs /\ length cs = 22%nat)
+  in_quantifier C17_sample = true /\ reserved_free C17_sample = true
+  /\ (exists cs, compile C17_sample = Ok cs /\ length cs = 24%nat)
   /\ nth 0 (query_paths C17_sample) [] = bs "/foo/v1/foo_s/q/{foo_id}/{account_id}"
   /\ nth 2 (query_paths C17_sample) [] = bs "/foo/v1/foo_s/q/{foo_id}/{account_id}/events"
-  /\ status_values (status_prefix C17_sample) (e_status C17_sample)
+  /\ path_key_names C17_sample = [bs "foo_id"; bs "account_id"]
+  /\ entity_status_values C17_sample
      = [(bs "FOO_S_STATUS_UNSPECIFIED", 0); (bs "FOO_S_STATUS_ACTIVE", 1); (bs "FOO_S_STATUS_INACTIVE", 2)]
   /\ Forall (fun k => no_slash (uf_name (k_def k)) = true) (e_keys C17_sample)
   /\ upper_word (e_name C17_sample) = true /\ fields_ok C17_sample = true
   /\ path_params (query_base C17_sample) = [] /\ command_params_ok C17_sample = true
   /\ clean_path (query_base C17_sample) = query_base C17_sample.
 Proof.
+  split; [vm_compute; reflexivity|]. split; [vm_compute; reflexivity|].
   split; [eexists; split; [vm_compute; reflexivity|reflexivity]|].
   repeat split; try (vm_compute; reflexivity). repeat constructor.
 Qed.
